@@ -475,7 +475,7 @@ def main(argv=None):
         print("not reproduced")
         return 0
     quick = a.tier == "quick"
-    ev = common.Evidence(PROP, a.tier, a.seed, "exploration", "generated trees (depth <= 3, fan-out <= 3, empty directories, empty files, repeated names) x operation {upload dir, upload file, download dir, download file, recursive list, recursive remove} x destination {'', 1..3 components, absolute, '/'} x write_into x working directory {/, /w, /w/x} x block size x {MLSD server, LIST-fallback server}; remote / local trees are compared byte for byte with the tutorial's placement rule; non-trivial = every run; distinct = distinct run digests")
+    ev = common.Evidence(PROP, a.tier, a.seed, "exploration", "generated trees (depth <= 3, fan-out <= 3, empty directories, empty files, repeated names) x operation {upload dir, upload file, download dir, download file, recursive list, recursive remove} x destination {'', 1..3 components, absolute, '/'} x write_into x working directory {/, /w, /w/x} x block size x {MLSD server, LIST-fallback server}; remote / local trees are compared byte for byte with the tutorial's placement rule; non-trivial = every run; distinct = distinct run digests One case in five is a sequence of 3..7 operations on one connection checked against a model of the remote tree; one in ten downloads a tree with an unreadable entry.")
     rep = common.Reporter(PROP, ev)
     deadline = time.time() + (a.budget or (60 if quick else 1200))
     n = 3000 if quick else 400000
